@@ -42,7 +42,7 @@ def gen_consts(v):
             f.write(out)
     return None
 
-SPEC_KEYS = (['valid', 'toks', 'str', 'rt', 'back', 'pre', 'eq', 'ok', 'tree', 'w', 'same', 'all', 'dall', 'chk', 'fresh', 'qe', 'ne', 'lt', 'le', 'gt', 'ge', 'pp', 'perr', 'herr', 'claim']
+SPEC_KEYS = (['valid', 'toks', 'str', 'rt', 'back', 'pre', 'eq', 'ok', 'tree', 'w', 'same', 'all', 'dall', 'chk', 'fresh', 'qe', 'ne', 'lt', 'le', 'gt', 'ge', 'pp', 'perr', 'herr', 'claim', 'outer', 'inner', 'innerok', 'mt']
              + ['p%d' % i for i in range(16)]
              + ['r%d' % i for i in range(16)] + ['d%d' % i for i in range(16)])
 INTERNAL_KEYS = []          # 'err' (message text) and 'wl' are compared but are not property-determined
@@ -54,7 +54,9 @@ RULE = ('pointer token lists over {~ / 0 1 a "" ~0 ~1 ~01 ...} (all lists up to 
         'per-case watchdog, an exact-length sweep (every document size 1..4200 and 2^k-1..2^k+1 up to 65537), sequences of '
         'operator==/!=/</<=/>/>= on every pair of integer node kinds at 0, +-1, 2^31, 2^32, 2^63, 2^64 boundaries and their '
         '2^32/2^63/2^64 aliases in both orders (bare, inside containers, in patch test ops), sequences of '
-        'the JsonParser handler interface driven directly by arbitrary, also ill-nested, event sequences (root compared after every event), '
+        'trees differing only in member names / element order / nesting shape compared with == and as patch test values, '
+        'overlapping parses (a second text parsed from inside the k-th handler callback; 2-4 threads parsing different texts '
+        '40 times each, results must equal the sequential ones), the JsonParser handler interface driven directly by arbitrary, also ill-nested, event sequences (root compared after every event), '
         'JSON Patch documents as TEXT through JsonPatchParser (well-formed, member order shuffled, duplicate/missing/wrongly '
         'typed members, unknown ops, non-object elements, non-array documents, truncations) applied to generated targets, sequences of '
         'texts through ONE long-lived JsonParser (failing inside open containers at every depth, then valid), mutated documents, random '
@@ -62,7 +64,7 @@ RULE = ('pointer token lists over {~ / 0 1 a "" ~0 ~1 ~01 ...} (all lists up to 
         'of 1-8 ops on generated documents with paths aimed at existing members, indices len-1/len/len+1, "-", '
         'non-canonical indices and keys containing / and ~.  non-trivial = pointer valid / text accepted / tree '
         'round-trips / patch applied and changed the document; distinct = distinct model output line')
-ASSUMPTIONS = ['operator new does not fail', 'C locale (isprint/isdigit)', 'JsonData without a schema validator',
+ASSUMPTIONS = ['operator new does not fail', 'thread-safety of JsonParser::Parse and re-entrancy from handler callbacks are checked by test only (nest/thr cases), the model being a pure function of the text', 'C locale (isprint/isdigit)', 'JsonData without a schema validator',
                'patch operations carry a value (the NULL-value constructors of add/replace/test are not driven)']
 TRUSTED = ['modelled rather than verified: JsonPointer.cpp (all), JsonLexer.cpp (all), JsonParser.cpp (for texts: handler '
            'stacks folded into direct tree construction; the handler stack machine itself is modelled separately as h_step and '
@@ -333,6 +335,68 @@ def gen_cmp(rng, quick):
             yield 'D' + hx(t), y
             yield y, 'D' + hx(t)
 
+# ---------------------------------------------------------------- structural equality
+def struct_variant(rng, t):
+    """a tree that differs from t only in member names / element order / nesting shape (or not at all)"""
+    import copy
+    t = copy.deepcopy(t)
+    nodes = []
+    def walk(x):
+        nodes.append(x)
+        if x[0] == 'a':
+            for y in x[1]: walk(y)
+        elif x[0] == 'o':
+            for y in x[1].values(): walk(y)
+    walk(t)
+    kind = rng.choice(['same', 'rename', 'rename', 'swap', 'wrap', 'unwrap', 'obj2arr', 'dropkey', 'addelem'])
+    objs = [x for x in nodes if x[0] == 'o' and x[1]]
+    arrs = [x for x in nodes if x[0] == 'a' and len(x[1]) >= 1]
+    if kind == 'rename' and objs:
+        o = rng.choice(objs); k = rng.choice(list(o[1].keys()))
+        nk = rng.choice([k + b'x', b'z' + k, k[:-1], k.upper(), b'ceiling', b'']) 
+        items = [(nk if kk == k else kk, vv) for kk, vv in o[1].items()]
+        o[1].clear(); o[1].update(items)
+    elif kind == 'swap' and [x for x in arrs if len(x[1]) >= 2]:
+        a = rng.choice([x for x in arrs if len(x[1]) >= 2]); i, j = rng.sample(range(len(a[1])), 2)
+        a[1][i], a[1][j] = a[1][j], a[1][i]
+    elif kind == 'wrap' and arrs:
+        a = rng.choice(arrs); i = rng.randrange(len(a[1])); a[1][i] = ('a', [a[1][i]])
+    elif kind == 'unwrap' and arrs:
+        a = rng.choice(arrs); i = rng.randrange(len(a[1]))
+        if a[1][i][0] == 'a' and len(a[1][i][1]) == 1: a[1][i] = a[1][i][1][0]
+        else: a[1][i:i + 1] = [a[1][i], a[1][i]][:rng.choice([1, 2])]
+    elif kind == 'obj2arr' and objs:
+        o = rng.choice(objs); vals = list(o[1].values())
+        # same leaves, other shape: the object becomes the array of its values
+        idx = next(i for i, x in enumerate(nodes) if x is o)
+        if idx == 0: return ('a', vals)
+        for x in nodes:
+            if x[0] == 'a':
+                for i, y in enumerate(x[1]):
+                    if y is o: x[1][i] = ('a', vals)
+            elif x[0] == 'o':
+                for kk, y in list(x[1].items()):
+                    if y is o: x[1][kk] = ('a', vals)
+    elif kind == 'dropkey' and objs:
+        o = rng.choice(objs); del o[1][rng.choice(list(o[1].keys()))]
+    elif kind == 'addelem' and arrs:
+        rng.choice(arrs)[1].append(('n',))
+    return t
+
+def gen_struct(rng, quick):
+    for _ in range(500 if quick else 20000):
+        t = tree_to_py(rand_tree(rng, rng.choice([1, 2, 2, 3, 4]), keys=rng.choice([PKEYS, None]), small=True))
+        if t[0] not in 'ao': t = ('o', {b'max': t, b'min': ('i', 1)})
+        u = struct_variant(rng, t)
+        x, y = ','.join(enc_py(rng, t)), ','.join(enc_py(rng, u))
+        r = rng.random()
+        if r < 0.55: yield 'cmp %s %s' % (x, y)
+        elif r < 0.7: yield 'cmp %s %s' % (y, x)
+        else:     # as the value of a patch test followed by an operation that always applies
+            yield 'patch %s tst:-:%s;rep:-:n' % (x, y)
+    yield 'cmp o2,6d6178,u10,6d696e,u1 o2,6365696c696e67,u10,666c6f6f72,u1'
+    yield 'patch o2,6d6178,u10,6d696e,u1 tst:-:o2,6365696c696e67,u10,666c6f6f72,u1;rep:-:n'
+
 # ---------------------------------------------------------------- patches
 PKEYS = ['a', 'b', 'c', 'a/b', 'm~n', '', '-', '0', '1', '01']
 
@@ -548,6 +612,21 @@ def gen_cases(rng, tier):
     # patch documents given as text through JsonPatchParser
     for _ in range(900 if quick else 40000):
         yield gen_pdoc(rng)
+    # equality of trees that differ only in member names / element order / nesting shape
+    for c in gen_struct(rng, quick):
+        yield c
+    # overlapping parses: another text parsed from inside a handler callback; several threads at once
+    NEST_TEXTS = ['[1, 2, 3]', '{"a": [1, {"b": "x"}], "c": "ssss"}', '"just a string"', '[[[["deep"]]]]', '[1, 2', '{"k": tru',
+                  '7', '{"long": "' + 'y' * 300 + '"}', '[' + ', '.join(str(i) for i in range(100)) + ']', 'null', '',
+                  '["' + 'z' * 2000 + '"]']
+    for _ in range(200 if quick else 6000):
+        o = rng.choice(NEST_TEXTS) if rng.random() < 0.7 else render(rng, tree_to_py(rand_tree(rng, 3)))
+        i = rng.choice(NEST_TEXTS) if rng.random() < 0.7 else render(rng, tree_to_py(rand_tree(rng, 3)))
+        yield 'nest %d %s %s' % (rng.randrange(1, 7), hx(o.encode('latin-1')), hx(i.encode('latin-1')))
+    for _ in range(40 if quick else 600):
+        n = rng.choice([2, 3, 4, 4])
+        ts = [rng.choice(NEST_TEXTS) if rng.random() < 0.6 else render(rng, tree_to_py(rand_tree(rng, 3))) for _ in range(n)]
+        yield 'thr ' + ','.join(hx(t.encode('latin-1')) for t in ts)
     # API-built trees
     for _ in range(500 if quick else 30000):
         pr = rng.random() < 0.9
@@ -563,6 +642,8 @@ def nontrivial(payload, md):
     op = payload.split(' ', 1)[0]
     if op in ('ptr', 'ptrt'): return md.get('valid') == '1' and md.get('rt') == '1'
     if op == 'pre': return md.get('pre') == '1'
+    if op == 'nest': return md.get('outer', '').startswith('ok:')
+    if op == 'thr': return md.get('mt') == '1' and any(v.startswith('ok:') for k, v in md.items() if k[0] == 'p')
     if op == 'ev': return md.get('claim', 'null') != 'null'
     if op == 'pdoc': return md.get('pp') == '1' and md.get('all') == '1'
     if op == 'cmp': return md.get('eq') == '1' or md.get('lt') == '1'
